@@ -14,7 +14,7 @@ THEOREMS = ["OdeVerif.C07.probe_history_independent", "OdeVerif.C07.run_pointwis
             "OdeVerif.Refine.readGlobalConfig_refines"]
 LEVEL = "proof"
 
-OPTION_MENU = [("input_time_symbol", ["s", "time"]), ("output_timestep_symbol", ["dt", "h_step"]), ("differential_order_symbol", ["_D", "__prime"]),
+OPTION_MENU = [("input_time_symbol", ["s", "time", "T"]), ("output_timestep_symbol", ["dt", "h_step"]), ("differential_order_symbol", ["_D", "__prime"]),
                ("simplify_expression", ["sympy.expand(expr)", "expr"]), ("sim_time", ["0.05"]), ("max_step_size", ["0.01"]),
                ("integration_accuracy_abs", ["1E-9"]), ("expression_simplification_threshold", ["500"])]
 
@@ -38,7 +38,16 @@ def case_history(case):
 
 
 def gen_call(rng, kind=None):
-    kind = kind or rng.choice(["plain", "plain", "options", "options", "simplify-arg", "flags", "failing", "bad-option", "empty", "function", "function"])
+    kind = kind or rng.choice(["plain", "plain", "options", "options", "simplify-arg", "flags", "failing", "bad-option", "empty", "function", "function",
+                               "option-named", "option-named"])
+    if kind == "option-named":
+        # default options, and a state variable / parameter whose NAME is a value that other calls of the history pass as an option
+        # (time symbol, step symbol, ...): whatever those calls registered under that name must be gone
+        nm, pn = rng.sample(["s", "time", "dt", "h_step", "zz", "hh", "T"], 2)
+        dyn = [{"expression": "%s' = -%s / tau_q + %s" % (nm, nm, pn), "initial_value": "1"}]
+        if rng.random() < 0.5:
+            dyn.append({"expression": "V_m' = -V_m / tau_m + %s" % nm, "initial_value": "0"})
+        return {"indict": {"dynamics": dyn}, "flags": {"disable_stiffness_check": True}, "kind": "option-named"}
     if kind == "function":
         # a function-of-time entry; the same text may recur in other calls of the history with another time symbol / marker
         tsym = rng.choice(["t", "t", "s", "time"])
@@ -113,6 +122,24 @@ def run(ctx, driver):
     for i in range(ctx.n(40, 400)):
         hist = [gen_call(rng) for _ in range(rng.choice([1, 2, 3, 4]))]
         probe = gen_call(rng, kind=rng.choice(["plain", "plain", "options", "flags", "function", "function"]))
+        if i % 5 == 3:
+            # targeted: some call of the history passes a symbol-valued option; the probe (default options) uses that very
+            # name for a state variable or a parameter -- nothing registered under the name may survive the call
+            opt = rng.choice(["input_time_symbol", "input_time_symbol", "output_timestep_symbol", "differential_order_symbol"])
+            val = rng.choice(["s", "time", "T", "dt", "zz"])
+            if opt == "input_time_symbol" and rng.random() < 0.6:
+                carrier = {"indict": {"dynamics": [{"expression": "I_k = exp(-%s / tau)" % val}, {"expression": "V' = -V / tau_m + I_k", "initial_value": "0"}]},
+                           "flags": {"disable_stiffness_check": True}, "kind": "function"}
+            else:
+                carrier = gen_call(rng, kind="plain")
+            carrier["indict"].setdefault("options", {})[opt] = val
+            hist.insert(rng.randrange(len(hist) + 1), carrier)
+            other = rng.choice([q for q in ["s", "time", "T", "dt", "zz", "k_p"] if q != val])
+            nm, pn = (val, other) if rng.random() < 0.6 else (other, val)
+            dyn = [{"expression": "%s' = -%s / tau_q + %s" % (nm, nm, pn), "initial_value": "1"}]
+            if rng.random() < 0.5:
+                dyn.append({"expression": "V_m' = -V_m / tau_m + %s" % nm, "initial_value": "0"})
+            probe = {"indict": {"dynamics": dyn}, "flags": {"disable_stiffness_check": True}, "kind": "option-named"}
         cases.append({"calls": hist + [probe], "hashseeds": [1, 4242] if quick else [1, 4242, 77, 123456]})
     resets = reset_policy_from_source()
     ctx.cov["resets_first_from_source"] = resets
